@@ -223,7 +223,11 @@ func c17Main(tier, build, repo, cffBin string) {
 		var mu sync.Mutex
 		var wg sync.WaitGroup
 		sem := make(chan struct{}, mc.Workers())
-		for _, p := range progs {
+		for pi, p := range progs {
+			if !th && mode == "source-map" && pi%3 != 0 {
+				// quick tier: the permutation oracle runs on every program in base mode and on every third in source-map mode
+				continue
+			}
 			wg.Add(1)
 			go func(p *pg.Program) {
 				defer wg.Done()
@@ -382,28 +386,46 @@ func c17Main(tier, build, repo, cffBin string) {
 			}
 			os.Remove(g.genFile[p.ID])
 		}
-		// each file alone
+		// each file alone. Every worker has its own copy of the module: two invocations of the tool must not
+		// run over one directory at the same time (a file the other one has just created is empty for an
+		// instant, and an empty file has no build constraint that would keep it out of the package)
 		var wg sync.WaitGroup
 		var mu sync.Mutex
-		sem := make(chan struct{}, mc.Workers())
+		queue := make(chan *pg.Program, len(progs))
 		for _, p := range progs {
-			if _, ok := first[p.ID]; !ok {
-				continue
+			if _, ok := first[p.ID]; ok {
+				queue <- p
 			}
+		}
+		close(queue)
+		for w := 0; w < mc.Workers(); w++ {
 			wg.Add(1)
-			go func(p *pg.Program) {
+			go func(w int) {
 				defer wg.Done()
-				sem <- struct{}{}
-				defer func() { <-sem }()
-				run(g.dir, goEnv, cffBin, "-genmode="+mode, "-file="+filepath.Base(g.srcFile[p.ID]), "./"+g.pkgOf[p.ID])
-				b, err := os.ReadFile(g.genFile[p.ID])
-				mu.Lock()
-				aloneRuns++
-				if err != nil || string(b) != first[p.ID] {
-					report(progKey(p)+" mode="+mode+" alone", "processing the file alone (-file) produced different output than processing the whole package: "+firstTextDiff(first[p.ID], string(b)), p)
+				dir := fmt.Sprintf("%s-alone%d", g.dir, w)
+				os.RemoveAll(dir)
+				if err := copySources(g.dir, dir); err != nil {
+					mc.ToolError("copying %s: %v", g.dir, err)
 				}
-				mu.Unlock()
-			}(p)
+				defer os.RemoveAll(dir)
+				for p := range queue {
+					rel, _ := filepath.Rel(g.dir, g.genFile[p.ID])
+					outFile := filepath.Join(dir, rel)
+					_, se, code := run(dir, goEnv, cffBin, "-genmode="+mode, "-file="+filepath.Base(g.srcFile[p.ID]), "./"+g.pkgOf[p.ID])
+					b, err := os.ReadFile(outFile)
+					os.Remove(outFile)
+					mu.Lock()
+					aloneRuns++
+					if err != nil || string(b) != first[p.ID] {
+						msg := "processing the file alone (-file) produced different output than processing the whole package: " + firstTextDiff(first[p.ID], string(b))
+						if err != nil {
+							msg += fmt.Sprintf(" (no output; exit %d: %s)", code, firstLines(se, 3))
+						}
+						report(progKey(p)+" mode="+mode+" alone", msg, p)
+					}
+					mu.Unlock()
+				}
+			}(w)
 		}
 		wg.Wait()
 		if len(samples) < 3 && len(progs) > 0 {
@@ -434,13 +456,34 @@ func c17Main(tier, build, repo, cffBin string) {
 			"known_findings_hit":                  rep.KnownHits,
 			"rule":                                "(a) the tool rebuilt with every generator map range under explorer control: for each program and mode a default run records the sequence of map iterations (key counts), then every single deviation (thorough: pairs at sites with <=3 keys) from sorted order is executed - all n! orders for n<=4, reversal/rotations/adjacent transpositions above - and the output must be byte-identical; distinct_nontrivial = map-iteration sites with >=2 keys; (b) every -file subset x explicit/default output of a 5-file package and every file of the large packages alone vs whole package; (c) two fresh processes per package and mode, token scan",
 		},
-		Assumptions: []string{"process-level nondeterminism other than map iteration order and the random token (e.g. address-dependent behaviour inside go/types) is only sampled by the repeated runs", "maps with more than 4 keys: reversal, rotations and adjacent transpositions instead of all orders (quick tier: reversal, rotation by one and the first transposition only)"}}
+		Assumptions: []string{"process-level nondeterminism other than map iteration order and the random token (e.g. address-dependent behaviour inside go/types) is only sampled by the repeated runs", "maps with more than 4 keys: reversal, rotations and adjacent transpositions instead of all orders (quick tier: reversal, rotation by one and the first transposition only)", "quick tier: the permutation oracle covers every program in base mode and every third program in source-map mode"}}
 	if err := mc.WriteEvidence(ev); err != nil {
 		mc.ToolError("evidence: %v", err)
 	}
 	fmt.Printf("C17 %s: %d programs, %d permutation runs over %d map-iteration sites (largest map %d keys), %d file-set invocations, %d alone-vs-package runs, %d repeat comparisons, %.1fs\n",
 		tier, len(progs), permRuns, permSites, maxKeys, len(runs), aloneRuns, repeatCompared, wall)
 	os.Exit(rep.ExitCode())
+}
+
+// copySources copies a generated module without the tool's outputs.
+func copySources(from, to string) error {
+	return filepath.Walk(from, func(p string, info os.FileInfo, err error) error {
+		if err != nil {
+			return err
+		}
+		rel, _ := filepath.Rel(from, p)
+		if info.IsDir() {
+			return os.MkdirAll(filepath.Join(to, rel), 0o755)
+		}
+		if strings.HasSuffix(p, "_gen.go") || strings.HasSuffix(p, "_gen_test.go") {
+			return nil
+		}
+		b, err := os.ReadFile(p)
+		if err != nil {
+			return err
+		}
+		return os.WriteFile(filepath.Join(to, rel), b, 0o644)
+	})
 }
 
 func firstTextDiff(a, b string) string {
